@@ -1604,3 +1604,17 @@ impl Parser {
         }
     }
 }
+
+/// Accessors for the verification facade (`crate::verif::parse`); compiled only with the `verif` feature.
+#[cfg(feature = "verif")]
+impl Parser {
+    /// `infix_binding_power` of the current token (peeking at the next one where the parser does).
+    pub(crate) fn infix_binding_power_for_verif(&mut self) -> Option<(u8, u8)> {
+        self.infix_binding_power()
+    }
+
+    /// Has the whole input been consumed?
+    pub(crate) fn at_eof_for_verif(&self) -> bool {
+        self.current_token == Token::Eof
+    }
+}
